@@ -124,6 +124,82 @@ def check_arrays(z, aot, nmodes, sizes):
     return bad
 
 
+def radial_exact(n, m):
+    """coefficients of R_n^|m| from the definition, exact integers: [(power, coefficient)]"""
+    m = abs(m)
+    out = []
+    for k in range((n - m) // 2 + 1):
+        c = Fraction((-1) ** k * math.factorial(n - k), math.factorial(k) * math.factorial((n + m) // 2 - k) * math.factorial((n - m) // 2 - k))
+        out.append((n - 2 * k, c))
+    return out
+
+
+def check_high_orders(z):
+    """radial orders beyond TLC's 32-bit integers (n = 21 .. 40: 21! no longer fits 64 bits either): the radial function and the
+    modes against the definition evaluated in exact rational arithmetic; tolerance proportional to the cancellation the float
+    evaluation has to go through (sum |coef| r^k)"""
+    bad = []
+    n_cmp = 0
+    radii = [Fraction(0), Fraction(1, 4), Fraction(1, 2), Fraction(3, 4), Fraction(7, 8), Fraction(1)]
+    rr = np.array([float(r) for r in radii])
+    for n in (12, 20, 21, 22, 25, 30, 40):
+        for m in sorted({n % 2, n % 2 + 2, n - 4, n}):
+            if m < 0 or m > n or (n - m) % 2:
+                continue
+            co = radial_exact(n, m)
+            exp = np.array([float(sum(c * r ** p for p, c in co)) for r in radii])
+            mag = np.array([float(sum(abs(c) * r ** p for p, c in co)) for r in radii])
+            got = np.asarray(z.zernikeRadialFunc(n, m, rr), float)
+            n_cmp += 1
+            if got.shape != rr.shape or np.any(np.abs(got - exp) > 1e-13 * (n + 1) * mag + 1e-12):
+                bad.append(("zernikeRadialFunc:high-radial-order", dict(n=n, m=m, got=got.tolist(), expected=exp.tolist())))
+                return bad, n_cmp
+    N = 12
+    coords = [Fraction(2 * i + 1 - N, N) for i in range(N)]
+    for j in (79, 231, 232, 240, 254, 300, 497):
+        n, m = [int(v) for v in z.zernIndex(j)]
+        co = radial_exact(n, m)
+        cj = (n + 1) if m == 0 else 2 * (n + 1)
+        exp = np.zeros((N, N))
+        mag = np.zeros((N, N))
+        for a, cy in enumerate(coords):
+            for b, cx in enumerate(coords):
+                r2 = cx * cx + cy * cy
+                if r2 > 1:
+                    continue
+                r = math.sqrt(float(r2))
+                th = math.atan2(float(cy), float(cx))
+                ang = 1.0 if m == 0 else (math.cos(abs(m) * th) if j % 2 == 0 else math.sin(abs(m) * th))     # Noll: even j cosine
+                exp[a, b] = math.sqrt(cj) * ang * sum(float(c) * r ** p for p, c in co)
+                mag[a, b] = math.sqrt(cj) * sum(abs(float(c)) * r ** p for p, c in co)
+        got = np.asarray(z.zernike_noll(j, N), float)
+        n_cmp += 1
+        if got.shape != (N, N) or np.any(np.abs(got - exp) > 1e-11 * (n + 1) * mag + 1e-9):
+            bad.append(("zernike_noll:high-radial-order", dict(j=j, n=n, m=m, err=float(np.abs(got - exp).max()) if got.shape == (N, N) else None,
+                                                               bound=float(math.sqrt(2 * (n + 1))), max_abs=float(np.abs(got).max()))))
+            return bad, n_cmp
+    return bad, n_cmp
+
+
+def check_coefficient_scales(z):
+    """phaseFromZernikes is linear in the coefficient vector at every magnitude (metres, nanometres, mixed)"""
+    N = 9
+    base = np.array([0.0, 1.5, -2.0, 0.75, 0.0, 1.25, -0.5])
+    ref = np.asarray(z.phaseFromZernikes(list(base), N), float)
+    full = np.asarray(z.zernikeArray(len(base), N), float)
+    for s in (1e-6, 1e-9, 3e-10, 1e-14, 1e-30, 1e12):
+        got = np.asarray(z.phaseFromZernikes(list(base * s), N), float)
+        if got.shape != ref.shape or not np.allclose(got / s, ref, rtol=0, atol=1e-10 * np.abs(ref).max()):
+            return [("phaseFromZernikes:linear-combination:coefficient-magnitude", dict(scale=s, err=float(np.abs(got / s - ref).max()) if got.shape == ref.shape else None))]
+    mixed = np.array([1.0, 2e-9, -3e-10, 0.5, 4e-12, 0.0, 1e-9])
+    big = np.where(np.abs(mixed) > 1e-3, mixed, 0.0)
+    got = np.asarray(z.phaseFromZernikes(list(mixed), N), float) - np.asarray(z.phaseFromZernikes(list(big), N), float)
+    want = np.tensordot(mixed - big, full, axes=1)
+    if not np.allclose(got, want, rtol=0, atol=1e-6 * np.abs(want).max()):
+        return [("phaseFromZernikes:linear-combination:small-terms-next-to-large-ones", dict(err_rel=float(np.abs(got - want).max() / np.abs(want).max())))]
+    return []
+
+
 def check_gammas(z, modes, maxrad):
     g = np.asarray(z.makegammas(maxrad), float)
     nz = len(modes)
@@ -196,6 +272,11 @@ def run(run):
                 run.violation(key, detail, dict(kind="arrays", detail=detail))
             for key, detail in check_gammas(z, modes, maxrad):
                 run.violation(key, detail, dict(kind="gammas", detail=detail))
+            bad, nhi = check_high_orders(z)
+            run.traces += nhi
+            run.aux["high_order_comparisons"] = nhi
+            for key, detail in bad + check_coefficient_scales(z):
+                run.violation(key, detail, dict(kind="high-orders", detail=detail))
             run.traces += len(modes)
     run.sample(noll[min(7, len(noll) - 1)])
     run.sample(radial[-1])
@@ -205,6 +286,8 @@ def run(run):
     run.assumptions += [
         "Gram matrix -> identity as the grid is refined is a limit and is not decided; the continuum orthogonality of the "
         "radial polynomials is checked exactly by TLC instead",
+        "radial orders 12..40 (beyond TLC's integers) and coefficient magnitudes 1e-30..1e12 are auxiliary checks against the "
+        "definition evaluated in exact rational arithmetic by the harness",
         "mode values compared to 1e-9 with sqrt(c_j) P_j(x, y) evaluated from TLC's integer polynomial at the exact rational "
         "pixel centres (2i+1-N)/N; gamma entries compared to 1e-5 (float32 output)",
     ]
